@@ -1,5 +1,6 @@
 import IsoVerif.Driver.Core
 import IsoVerif.Model.Cache
+import IsoVerif.Model.Artefact
 import IsoVerif.Gen.CacheProtocol
 
 /-
@@ -48,6 +49,8 @@ inductive JV where
   | str (s : String)
   | num (n : Nat)          -- `123.0` or `123`
   | bool (b : Bool)
+  | null
+  | arr (l : List JV)
   | obj (kv : List (String × JV))
 
 def isWs (c : Char) : Bool := c = ' ' || c = '\n' || c = '\t' || c = '\r'
@@ -83,12 +86,25 @@ mutual
     | '"' :: r => (parseStr r "").map (fun (s, r') => (JV.str s, r'))
     | 't' :: 'r' :: 'u' :: 'e' :: r => some (JV.bool true, r)
     | 'f' :: 'a' :: 'l' :: 's' :: 'e' :: r => some (JV.bool false, r)
+    | 'n' :: 'u' :: 'l' :: 'l' :: r => some (JV.null, r)
+    | '[' :: r =>
+      match skipWs r with
+      | ']' :: r' => some (JV.arr [], r')
+      | r' => parseElems r' []
     | '{' :: r =>
       match skipWs r with
       | '}' :: r' => some (JV.obj [], r')
       | r' => parseMembers r' []
     | c :: r => if c.isDigit then (parseNum (c :: r)).map (fun (n, r') => (JV.num n, r')) else none
     | [] => none
+  partial def parseElems (l : List Char) (acc : List JV) : Option (JV × List Char) :=
+    match parseVal l with
+    | none => none
+    | some (v, r) =>
+      match skipWs r with
+      | ',' :: r' => parseElems r' (acc ++ [v])
+      | ']' :: r' => some (JV.arr (acc ++ [v]), r')
+      | _ => none
   partial def parseMembers (l : List Char) (acc : List (String × JV)) : Option (JV × List Char) :=
     match skipWs l with
     | '"' :: r =>
@@ -147,13 +163,16 @@ def decodeEntry (names : Array String) (kv : List (String × JV)) : Option Entry
         some { kind := kind, target := tid, srcM := sm, tgtM := tm, tag := tag, aux := aux }
     | _, _, _ => none
 
+/-- `load_config` keeps the entries that are dicts (an entry that is a string / number / null / list - a file written by
+    another version or edited by hand - is no entry: audit2 C20-G5); a dict entry the model cannot represent (unknown key,
+    missing field) makes the text "not a cache document" for the driver (such inputs are not generated) -/
 def decodeCache (names : Array String) : List (String × JV) → Option Cache
   | [] => some []
   | (k, JV.obj kv) :: r =>
     match nameId names k, decodeEntry names kv, decodeCache names r with
     | some kid, some e, some d => some ((kid, e) :: d)
     | _, _, _ => none
-  | _ => none
+  | (_, _) :: r => decodeCache names r
 
 def jsonCodec (names : Array String) : Codec Char :=
   { ser := fun d => (cacheText names d).toList
@@ -259,6 +278,32 @@ def parseOp : Handler := fun j => do
     | none => Json.null
     | some d => Json.str (cacheText names d))
 
-def ops : List (String × Handler) := [("run", runOp), ("parse", parseOp)]
+/-! ### the artefact model (Model/Artefact.lean): builds and re-openings of shared artefact files -/
+
+def jAInstr (j : Json) : Except String IsoVerif.Model.C20A.Instr := do
+  let op ← jStr (← arg j "op")
+  let p ← jNat (← arg j "p")
+  match op with
+  | "build" => pure (.build p (← jBool (← arg j "atomic")) (← jList (jList jNat) (← arg j "chunks")))
+  | "use" => pure (.use p)
+  | "ifMissing" => pure (.ifMissing p (← jNat (← arg j "skip")))
+  | _ => throw s!"unknown artefact instruction {op}"
+
+/-- `files`: [[path, [records]]…] present at the start; `procs`: instruction lists; `sched`: pids.  Returns what every
+    `use` found, in the order the uses took place (null = no such file), and what is left of every program. -/
+def artefactOp : Handler := fun j => do
+  let files ← jList (jPair jNat (jList jNat)) (← arg j "files")
+  let progs ← jList (jList jAInstr) (← arg j "procs")
+  let sched ← jList jNat (← arg j "sched")
+  let w : IsoVerif.Model.C20A.FS :=
+    { names := fun q => files.findIdx? (·.1 == q)
+      inodes := fun i => match files[i]? with | some (_, c) => c | none => []
+      next := files.length, obs := [] }
+  let s := IsoVerif.Model.C20A.run (IsoVerif.Model.C20A.Sys.start w progs) sched
+  pure (Json.mkObj [
+    ("obs", Json.arr (s.fs.obs.reverse.map (fun (q, c) => Json.arr #[ofNat q, ofOpt ofNatList c])).toArray),
+    ("left", ofNatList (s.procs.map (fun p => p.todo.length)))])
+
+def ops : List (String × Handler) := [("run", runOp), ("parse", parseOp), ("artefact", artefactOp)]
 
 end IsoVerif.Driver.C20
